@@ -166,3 +166,60 @@ Theorem c18_play_audio : forall contact_lang allowed base audio tr_audio,
         = Some {| i_text := []; i_audio := hd [] out; i_lang := used |}).
 Proof. exact play_audio_spec. Qed.
 Print Assumptions c18_play_audio.
+
+(* messages whose values are templates: whatever the evaluation of the localized values gives, each part of the
+   message is the evaluation of its own chain choice, and the language reported is the one used for the text of the
+   message AS CREATED — for a message created without text (e.g. a text that evaluates to ""), its attachments'
+   language, then its quick replies' *)
+Theorem c18_independent_evaluated : forall ev_text ev_atts ev_qrs contact_lang allowed base m,
+  let o := evaluate_message_gen ev_text ev_atts ev_qrs contact_lang allowed base m in
+  o_text o = ev_text (hd [] (fst (get_text contact_lang allowed base [m_text m] (tr_text m))))
+  /\ o_atts o = ev_atts (fst (get_text contact_lang allowed base (m_atts m) (tr_atts m)))
+  /\ o_qrs o = ev_qrs (fst (get_text contact_lang allowed base (m_qrs m) (tr_qrs m))).
+Proof. exact evaluate_message_gen_independent. Qed.
+Print Assumptions c18_independent_evaluated.
+
+Theorem c18_locale_evaluated : forall ev_text ev_atts ev_qrs contact_lang allowed base m,
+  let o := evaluate_message_gen ev_text ev_atts ev_qrs contact_lang allowed base m in
+  (o_text o <> [] -> o_lang o = snd (get_text contact_lang allowed base [m_text m] (tr_text m)))
+  /\ (o_text o = [] -> o_atts o <> [] ->
+      o_lang o = snd (get_text contact_lang allowed base (m_atts m) (tr_atts m)))
+  /\ (o_text o = [] -> o_atts o = [] -> o_qrs o <> [] ->
+      o_lang o = snd (get_text contact_lang allowed base (m_qrs m) (tr_qrs m)))
+  /\ (o_text o = [] -> o_atts o = [] -> o_qrs o = [] -> o_lang o = nil_lang).
+Proof. exact evaluate_message_gen_locale. Qed.
+Print Assumptions c18_locale_evaluated.
+
+(* a message built from a channel template: its variables are the chain's choice for the action's template
+   variables, padded/cut to the number of variables of the template translation *)
+Theorem c18_template_variables : forall contact_lang allowed base n vars tr,
+  exists out used,
+    spec_pick contact_lang allowed base vars tr out used
+    /\ length (template_variables contact_lang allowed base n vars tr) = n
+    /\ forall i, (i < n)%nat ->
+         nth i (template_variables contact_lang allowed base n vars tr) [] = nth i out [].
+Proof. exact template_variables_spec. Qed.
+Print Assumptions c18_template_variables.
+
+(* what a host gets for one recipient of a broadcast (BroadcastTranslations.ForContact over the event's contents).
+   FULL STATEMENT (what C18 asks): for every recipient, the content equals what the chain gives that recipient:
+     forall rl allowed base loc_langs m,
+       let o := for_contact rl allowed base (broadcast_translations base loc_langs m) in
+       let w := evaluate_message rl allowed base m in
+       o_text o = o_text w /\ o_atts o = o_atts w /\ o_qrs o = o_qrs w /\ o_lang o = o_lang w.
+   It is FALSE of the code (and of the model): the event's entry of a partially translated language is filled with
+   the base content, which then shadows the environment's default language — a known finding
+   (broadcast-for-contact:*:untranslated-part-filled-with-base).  Proved: the refutation, and the part that holds. *)
+Theorem c18_broadcast_for_contact_refuted :
+  exists rl allowed base loc_langs m,
+    let o := for_contact rl allowed base (broadcast_translations base loc_langs m) in
+    let w := evaluate_message rl allowed base m in
+    o_text o <> o_text w /\ o_lang o <> o_lang w /\ o_qrs o = o_qrs w.
+Proof. exact for_contact_refuted. Qed.
+Print Assumptions c18_broadcast_for_contact_refuted.
+
+Theorem c18_broadcast_for_contact_partial : forall rl allowed base m,
+  let o := for_contact rl allowed base (broadcast_translations base [] m) in
+  o_text o = m_text m /\ o_atts o = m_atts m /\ o_qrs o = m_qrs m.
+Proof. exact for_contact_no_localization. Qed.
+Print Assumptions c18_broadcast_for_contact_partial.
